@@ -337,6 +337,11 @@ func (s *Server) serve(id int, conn net.Conn) {
 				}
 			}
 			cs.inMulti = false
+			if s.ReplyDelay != nil {
+				if d := s.ReplyDelay(tag); d > 0 {
+					time.Sleep(d)
+				}
+			}
 			err2 = s.send(cs, func(m string) string {
 				var b strings.Builder
 				fmt.Fprintf(&b, "*%d\r\n", len(fs))
